@@ -58,6 +58,24 @@ func switchPrecompileCandidates() []string {
 func (g *gen) switchParams(round int) fxgovtypes.SwitchParams {
 	var p fxgovtypes.SwitchParams
 	pcs := switchPrecompileCandidates()
+	if round == 1 && g.lastSwitch != nil && g.rng.Intn(2) == 0 {
+		// boundary: the SAME NUMBER of entries as before with one entry exchanged (a fingerprint by length cannot tell them apart)
+		p.DisableMsgTypes = append([]string{}, g.lastSwitch.DisableMsgTypes...)
+		p.DisablePrecompiles = append([]string{}, g.lastSwitch.DisablePrecompiles...)
+		var free []string
+		for _, c := range pcs {
+			if !contains(p.DisablePrecompiles, c) {
+				free = append(free, c)
+			}
+		}
+		if len(free) > 0 && len(p.DisablePrecompiles) > 0 {
+			p.DisablePrecompiles[g.rng.Intn(len(p.DisablePrecompiles))] = free[g.rng.Intn(len(free))]
+			g.out.Count("switch-params: round=1 same-length-exchange")
+			g.lastSwitch = &p
+			return p
+		}
+		p = fxgovtypes.SwitchParams{}
+	}
 	for _, m := range switchMsgCandidates {
 		if g.rng.Intn(2) == 0 {
 			p.DisableMsgTypes = append(p.DisableMsgTypes, m)
@@ -80,6 +98,7 @@ func (g *gen) switchParams(round int) fxgovtypes.SwitchParams {
 	}
 	if round < 2 {
 		g.out.Count(fmt.Sprintf("switch-params: round=%d msgs=%d precompiles=%d", round, len(p.DisableMsgTypes), len(p.DisablePrecompiles)))
+		g.lastSwitch = &p
 	}
 	return p
 }
